@@ -4,6 +4,7 @@
   (Part of the trusted correspondence machinery, not of the proofs.)
 -/
 import Csvq.Model.Float
+import Csvq.Model.ParseFloat
 namespace Csvq.Proto
 open Csvq
 
@@ -75,6 +76,15 @@ def parseBool (s : String) : Option Bool :=
 def parseHexX (s : String) : Option Bytes :=
   if s.front = 'x' then unhex (s.drop 1).toString else none
 
+/-- the numeric / boolean part of a text's profile, recomputed by the model -/
+def textProfileOK (p : Profile) : Bool :=
+  match p.raw with
+  | .str b =>
+    let t := PF.strTernaryB b
+    p.int? == PF.strToIntStrictB b && p.flt? == PF.strToFloat b && p.tern == t
+      && p.bool? == (match t with | .U => none | .T => some true | .F => some false)
+  | _ => true
+
 /-- profile token: raw;int;flt;dt;bool;strU;tern -/
 def parseProfile (s : String) : Option Profile :=
   match s.splitOn ";" with
@@ -86,7 +96,10 @@ def parseProfile (s : String) : Option Profile :=
       let b ← parseOpt parseBool b
       let u ← parseOpt parseHexX u
       let t ← parseT t
-      pure { raw := raw, int? := i, flt? := f, dt? := d, bool? := b, strU? := u, tern := t }
+      let p : Profile := { raw := raw, int? := i, flt? := f, dt? := d, bool? := b, strU? := u, tern := t }
+      -- what the real conversions made of a TEXT must be what the model's own conversions make of its bytes
+      -- (Model/ParseFloat.lean); otherwise the token is rejected and the line shows up as a difference
+      if textProfileOK p then pure p else none
   | [v] => (parseVal v).map profileOf     -- bare non-string value: the model derives the profile
   | _ => none
 
